@@ -12,6 +12,7 @@ import QrlewModel.Model.Tau
 import QrlewModel.Model.Rel
 import QrlewModel.Model.Quote
 import QrlewModel.Model.Namer
+import QrlewModel.Model.Total
 import QrlewModel.Generated.Dialects
 /-!
 JSON-lines driver over the executable model.  One input line = one harness line
@@ -390,6 +391,38 @@ def runNamer (c aux : Json) : Option Json := do
     | _ => none
   pure (Json.arr outs)
 
+def pairOf? (j : Json) : Option (Int × Int) := do
+  let a ← (j.getArrVal? 0).toOption >>= jInt?
+  let b ← (j.getArrVal? 1).toOption >>= jInt?
+  pure (a, b)
+
+def hullJson (r : Option (List (Int × Int))) : Json :=
+  match r with
+  | none => Json.str "panic"
+  | some l => match Total.hull l with
+    | none => Json.str "empty"
+    | some (lo, hi) => Json.arr #[Json.num (JsonNumber.fromInt lo), Json.num (JsonNumber.fromInt hi)]
+
+def runArith (c aux : Json) : Option Json := do
+  let kind ← (c.getObjVal? "kind").toOption >>= fun t => t.getStr?.toOption
+  match kind with
+  | "fdiv" =>
+    let (a, b) ← (aux.getObjVal? "x").toOption >>= pairOf?
+    let (c', d) ← (aux.getObjVal? "y").toOption >>= pairOf?
+    pure (Json.str (if Total.fdivNanCorner a b c' d then "nan-corner" else "ok"))
+  | "absup" =>
+    let (lo, hi) ← (c.getObjVal? "x").toOption >>= pairOf?
+    pure (Json.str (toString (ofInt (Int.ofNat (Total.absUpperNew lo hi)))))
+  | _ =>
+    let (a, b) ← (c.getObjVal? "x").toOption >>= pairOf?
+    let (c', d) ← (c.getObjVal? "y").toOption >>= pairOf?
+    match kind with
+    | "idiv" => pure (hullJson (Total.divImage? a b c' d))
+    | "imul" => pure (hullJson (Total.mulImage? a b c' d))
+    | "iplus" => pure (hullJson (Total.wholeImage? (fun x y => some (Total.satAdd x y)) a b c' d))
+    | "iminus" => pure (hullJson (Total.wholeImage? (fun x y => some (Total.satSub x y)) a b c' d))
+    | _ => none
+
 def runValues (c : Json) : Option Json := do
   let vs ← (c.getObjVal? "vals").toOption >>= fun a => a.getArr?.toOption
   let ns ← vs.toList.mapM jInt?
@@ -411,6 +444,7 @@ def handle (line : String) : Json :=
       | "limit" => runLimit c
       | "sizes" => runSizes c
       | "values" => runValues c
+      | "arith" => runArith c ((j.getObjVal? "aux").toOption.getD Json.null)
       | "namer" => runNamer c ((j.getObjVal? "aux").toOption.getD Json.null)
       | "clip" => runClip c ((j.getObjVal? "aux").toOption.getD Json.null)
       | "dpevent" => runDpEvent c
